@@ -89,9 +89,10 @@ def generate(rng, tier):
     # --- keystream ciphers ---
     allk = stream_cfgs_for(lambda k: True)
     for i in range(n * 2):
-        bs, w, dm, kind = allk[i % len(allk)] if i < len(allk) else rng.choice(allk)
-        key, iv = rbytes_n(rng, 8), boundary_iv(rng, bs, kind)
-        L = rng.choice([0, 1, bs - 1, bs, bs + 1, 2 * bs + 1, w * bs, (w + 1) * bs + 3, rng.randint(0, 6 * bs)])
+        bs, w, dm, kind = pick_stream(rng, i)
+        key = rbytes_n(rng, 8)
+        iv = stream_iv(rng, bs, kind, key, dm)
+        L = rng.choice([0, 1, bs - 1, bs, bs + 1, 2 * bs + 1, w * bs, (w + 1) * bs + 3, (2 * w + 1) * bs + 1, rng.randint(0, 6 * bs)])
         msg = rbytes_n(rng, L)
         c = Case("c01_s%d" % i, "stream", bs, w, dm, tags=dict(path="stream", mode=kind))
         c.op("new e %s new %s %s" % (kind, hx(key), hx(iv)))
